@@ -65,6 +65,8 @@ type Run struct {
 	// ResyncTo > 0: the source answers this connection with a full resynchronisation under the same replication id: an (empty) snapshot
 	// taken behind everything it had produced before this connection (those units therefore count as applied), then the stream from there
 	ResyncTo int `json:"resyncTo,omitempty"`
+	// LoseReply (crash faults): the last request of the budget is executed by the target but its answer never reaches the tool
+	LoseReply bool `json:"loseReply,omitempty"`
 }
 
 type Case struct {
@@ -136,6 +138,9 @@ func genCase(t *rapid.T) Case {
 			r.At = rapid.IntRange(1, 7*nu+8).Draw(t, "at")
 		}
 		r.LingerMs = rapid.SampledFrom([]int{0, 5, 30, 120, 230}).Draw(t, "linger")
+		if r.Fault == "crash" || r.Fault == "crash-start" {
+			r.LoseReply = rapid.IntRange(0, 2).Draw(t, "loseReply") == 0
+		}
 		if i > 0 && fed > 0 && rapid.IntRange(0, 5).Draw(t, "resync") == 0 {
 			r.ResyncTo = rapid.IntRange(1, 2).Draw(t, "resyncTo")
 		}
@@ -198,6 +203,18 @@ func genCase(t *rapid.T) Case {
 			{Restart: "process", Fault: "none", FeedTo: m, LingerMs: 5},
 			{Restart: rapid.SampledFrom([]string{"process", "input"}).Draw(t, "qrR1"), Fault: "none", FeedTo: m + 1, ResyncTo: 2, LingerMs: 5},
 			{Restart: rapid.SampledFrom([]string{"process", "input"}).Draw(t, "qrR2"), Fault: rapid.SampledFrom([]string{"none", "stop", "crash"}).Draw(t, "qrF2"), At: rapid.IntRange(3, 14).Draw(t, "qrAt"), FeedTo: nu, LingerMs: 5},
+		}
+	}
+	if rapid.IntRange(0, 4).Draw(t, "lostReply") == 0 {
+		// the link dies between the target executing a request and the tool reading the answer (most interesting: the EXEC of a unit), and
+		// the same process connects again: what the tool remembers is then behind what the target holds
+		if rapid.IntRange(0, 2).Draw(t, "lrSync") > 0 {
+			c.Link.Mode = "sync"
+		}
+		c.Pauses = nil
+		c.Runs = []Run{
+			{Restart: "process", Fault: "crash", LoseReply: true, At: rapid.IntRange(1, 6*nu).Draw(t, "lrAt"), FeedTo: nu},
+			{Restart: "input", Fault: rapid.SampledFrom([]string{"none", "crash"}).Draw(t, "lrF2"), LoseReply: true, At: rapid.IntRange(1, 6*nu).Draw(t, "lrAt2"), FeedTo: nu, LingerMs: 5},
 		}
 	}
 	// the last run: everything is produced and applied, then a graceful stop; one more start asks for the final resume point
@@ -499,7 +516,11 @@ func run(c Case) (fs []failure, inconc string, cls map[string]bool, hist any) {
 		}
 		rl.Committed = sortedUnits(before.committed)
 		if r.Fault == "crash-start" {
-			wd.w.Arm(r.At)
+			if r.LoseReply {
+				wd.w.ArmLose(r.At)
+			} else {
+				wd.w.Arm(r.At)
+			}
 		}
 		if r.Restart == "process" || ro == nil {
 			ro, _, err = bsync.StartUp(wd.tgt, c.Link, ids)
@@ -644,7 +665,11 @@ func run(c Case) (fs []failure, inconc string, cls map[string]bool, hist any) {
 		base := wd.w.Total()
 		wd.sending.Store(true)
 		if r.Fault == "crash" {
-			wd.w.Arm(r.At)
+			if r.LoseReply {
+				wd.w.ArmLose(r.At)
+			} else {
+				wd.w.Arm(r.At)
+			}
 		}
 		go func(ro *syncer.RedisOutput) {
 			done <- ro.Send(ctx, &gen.Reader{R: bufio.NewReaderSize(pr, 4096), LeftV: sp.Offset, RunID: ids[0], Aof: true, SizeV: -1})
@@ -733,6 +758,8 @@ func run(c Case) (fs []failure, inconc string, cls map[string]bool, hist any) {
 		}
 		logs = append(logs, rl)
 		cls["crashed"] = cls["crashed"] || rl.Dead
+		cls["crash-with-lost-reply"] = cls["crash-with-lost-reply"] || (rl.Dead && r.LoseReply)
+		cls["lost-reply-then-same-process"] = cls["lost-reply-then-same-process"] || (rl.Dead && r.LoseReply && ri+1 < len(runs) && runs[ri+1].Restart == "input")
 		cls["stopped-mid-way"] = cls["stopped-mid-way"] || (r.Fault == "stop" && !selfReturned)
 		if selfReturned && !rl.Dead && sendErr != nil && !errors.Is(sendErr, context.Canceled) {
 			// e.g. the coordinator's connection is gone after an (injected) failed journal deletion: the tool gives up the run and
